@@ -83,21 +83,22 @@ def read_groundwater_table(
 
             elif WTMethod == "Variable":
 
-                # Linear interpolation between dates
-
-                # create daily depths for each simulation day
-                # fill unspecified days with NaN
-                z_gw = pd.Series(
-                    np.nan * np.ones(len(ClockStruct.time_span)), index=ClockStruct.time_span
+                # Linear interpolation (in time) between dates. Observations dated
+                # outside the simulation period take part in the interpolation
+                # at their own date (a later row overrides an earlier one for the same date)
+                obs = pd.Series(
+                    df["Depth(mm)"].to_numpy(dtype=float), index=pd.DatetimeIndex(df.Date)
                 )
+                obs = obs[~obs.index.duplicated(keep="last")].sort_index()
 
-                for row in range(len(df)):
-                    date = df.Date.iloc[row]
-                    depth = df["Depth(mm)"].iloc[row]
-                    z_gw.loc[date] = depth
-
-                # Interpolate daily groundwater depths
-                z_gw = z_gw.interpolate()
+                # daily depths for each simulation day; days before the first
+                # observation stay NaN, the last depth holds after the last one
+                days = pd.DatetimeIndex(ClockStruct.time_span)
+                z_gw = (
+                    obs.reindex(obs.index.union(days))
+                    .interpolate(method="time")
+                    .reindex(days)
+                )
 
         # assign values to Paramstruct object
         ParamStruct.z_gw = z_gw.values
